@@ -50,6 +50,8 @@ def run(tier):
     V = core.Verdict(PID)
     rnd = random.Random(core.seed())
     cov, covstats = stream.cover_histories(pairs=False)
+    covcc, _ = stream.cover_histories(pairs=False, cfg="Cover_Stream_cc")
+    cov = cov + covcc * 3      # combined diffs are few: weigh them up in the sample
     # git never hands over a hunk header without lines: inputs end in a complete hunk
     cov = [h for h in cov if len(h) >= 2 and h[-1]["c"] != "hh"]
     nh = 400 if tier == "quick" else 4000
